@@ -7,6 +7,9 @@ from concurrent.futures import ProcessPoolExecutor
 B = "/verif/benign"
 
 
+ONLY = None
+
+
 def one(bid):
     d = os.path.join(B, bid)
     tmp = tempfile.mkdtemp(prefix="bacverif-benign-")
@@ -25,19 +28,35 @@ def one(bid):
         except Exception:
             return bid, "STALE", []
         bad = []
-        for i in range(1, 21):
-            p = "C%02d" % i
-            c = subprocess.run(["/venv/bin/python", "-m", "bacverif", "check", p, "--no-evidence", "--root", root], capture_output=True, text=True, cwd="/verif")
-            if c.returncode:
-                bad.append("%s(rc%d)" % (p, c.returncode))
+        c = subprocess.run(["/venv/bin/python", "-m", "bacverif", "checkall", "--root", root] + (["--only", ONLY] if ONLY else []), capture_output=True, text=True, cwd="/verif")
+        seen = 0
+        for line in c.stdout.split("\n"):
+            parts = line.split(" ", 2)
+            if len(parts) >= 2 and parts[1].startswith("rc="):
+                seen += 1
+                if parts[1] != "rc=0":
+                    bad.append("%s(%s)" % (parts[0], parts[1].replace("=", "")))
+        if seen < (len(ONLY.split(",")) if ONLY else 20):
+            bad.append("checkall-failed(%s)" % (c.stdout + c.stderr)[-200:].replace("\n", " "))
         return bid, "silent" if not bad else "FIRES", bad
     finally:
         shutil.rmtree(tmp, ignore_errors=True)
 
 
+def _init(only):
+    global ONLY
+    ONLY = only
+
+
 def main():
-    ids = sorted(x for x in os.listdir(B) if os.path.isdir(os.path.join(B, x)))
-    with ProcessPoolExecutor(max_workers=14) as ex:
+    """run_benign.py [id-prefix ...] [--only C04,C11]"""
+    global ONLY
+    args = sys.argv[1:]
+    if "--only" in args:
+        ONLY = args[args.index("--only") + 1]
+        del args[args.index("--only"):args.index("--only") + 2]
+    ids = sorted(x for x in os.listdir(B) if os.path.isdir(os.path.join(B, x)) and (not args or any(x.startswith(a) for a in args)))
+    with ProcessPoolExecutor(max_workers=14, initializer=_init, initargs=(ONLY,)) as ex:
         res = list(ex.map(one, ids))
     n = 0
     for bid, st, bad in res:
